@@ -195,6 +195,12 @@ def fam_control(bits, tier):
     yield Case(F, ": f 1 if exit then ; 3 0 do i f loop 9", template="exit-under-do")
     yield Case(F, ": f begin 1 if exit then again ; f 3 0 do i loop", template="exit")
     yield Case(F, "3 0 do i exit loop 9", template="exit-in-do")
+    yield Case(F, ": f 7 ; 3 0 do i pause loop 9", template="call-in-do")
+    yield Case(F, ": f 7 ; 3 0 do pause i loop 9", template="call-in-do")
+    yield Case(F, ": f 7 ; 6 0 do i pause 2 +loop", template="call-in-do")
+    yield Case(F, ": f 7 ; 2 0 do 2 0 do i j pause loop loop", template="call-in-do")
+    yield Case(F, ": foo 123 pause ; 5 0 do i foo loop", template="call-in-do")
+    yield Case(F, ": f 7 ; 1 if pause then 2 begin 1- dup pause 0= until", template="call-in-do")
     yield Case(F, ": f halt ; 1 f 2", template="halt")
     yield Case(F, "halt", template="halt")
     yield Case(F, "pause", template="pause")
@@ -539,6 +545,8 @@ def isolated(fn, timeout=10):
         code = 0
         try:
             os.close(r)
+            dn = os.open(os.devnull, os.O_WRONLY)
+            os.dup2(dn, 2)      # glibc / sanitizer abort messages of an expected crash
             signal.signal(signal.SIGALRM, signal.SIG_DFL)
             signal.setitimer(signal.ITIMER_REAL, timeout)
             blob = pickle.dumps(fn())
@@ -571,6 +579,8 @@ class Explorer(object):
     def __init__(self, st, tier):
         self.st = st
         self.tier = tier
+        self._ref = None
+        self._pending = []
 
     # ---- violations
     def violation(self, kind, summary, case, bits, cfg, **sig):
@@ -675,6 +685,8 @@ class Explorer(object):
                 outcomes, nontrivial)
 
     def flag(self, kind, summary, case, bits, cfg, **sig):
+        if self._ref is not None and "marks" not in sig:
+            sig["marks"] = ",".join(sorted(self._ref.marks))
         self._pending.append(((kind, summary, case, bits, cfg), sig))
 
     # ---- reference helpers
@@ -682,7 +694,9 @@ class Explorer(object):
         seq = []
         err = ref.run(inputs)
         seq.append((err, ref.words(), ref.last_tag))
-        while err == 0 and not ref.done and len(seq) < 400:
+        while err == 0 and not ref.done:
+            if len(seq) >= 300:
+                raise R.Budget()      # pausing for ever
             err = ref.resume()
             seq.append((err, ref.words(), ref.last_tag))
         return seq
@@ -704,6 +718,7 @@ class Explorer(object):
     # ---- the C++ side
     def cpp_body(self, case, bits, cfg, prog, ref_compile, ref, refseq, ref_status, first):
         st = self.st
+        self._ref = ref
         stack_max, rec_max, oinit, ofac = cfg
         st.evaluations += 1
         try:
@@ -859,14 +874,17 @@ class Explorer(object):
                 k += 1
             tag = ref.trace[k][1] if k < len(ref.trace) else "end"
             incs = ref.trace[k][2] if k < len(ref.trace) else ref.loop_incs
-            self.flag("step-divergence", "single-stepping departs from the reference after %d distinct states, at "
+            exits = ref.trace[k][4] if k < len(ref.trace) else ref.exits
+            # same end state as run: only an intermediate value is off (a value defect, not a schedule defect)
+            kind = "step-divergence" if (run_final is None or (err, snap) != run_final) else "wrong-intermediate"
+            self.flag(kind, "single-stepping departs from the reference after %d distinct states, at "
                       "reference event %r: expected %s, observed %s; ended with %s after %d steps (reference ends with %s)" % (
                           k, tag, R.describe_body(reftrace[k]) if k < len(reftrace) else "(end)",
                           R.describe_body(ds[k]) if k < len(ds) else "(end)",
                           ERRORS[err] if 0 <= err < len(ERRORS) else err, nsteps,
                           ERRORS[refseq[-1][0]] if refseq else "?"),
                       case, bits, cfg, schedule="step", at=tag, after_loop_increment=bool(incs > 0),
-                      operands=case.meta.get("operands"))
+                      after_exit=bool(exits > 0), operands=case.meta.get("operands"), **self._div)
         else:
             # instruction counter: one per step, except for steps that only leave finished segments
             for a, b in zip(counts, counts[1:]):
@@ -998,24 +1016,44 @@ class Explorer(object):
                     wfin = (err, r2.words()[:2])
                 except (R.Budget, R.Unspecified):
                     continue
-                if r2.hazards:
-                    continue
-                if point < 0:
-                    m.begin()
-                else:
-                    m.run()
-                    for _ in range(point):
-                        m.resume()
-                got = []
-                err = m.call(w)
-                snap = m.snapshot()
-                got.append((err, snap[2:]))
-                n = 0
-                while err == 0 and not snap[1] and n < 50:
-                    err = m.resume()
-                    snap = m.snapshot()
+                def cpp_call(mm):
+                    if point < 0:
+                        mm.begin()
+                    else:
+                        mm.run()
+                        for _ in range(point):
+                            mm.resume()
+                    got = []
+                    err = mm.call(w)
+                    snap = mm.snapshot()
                     got.append((err, snap[2:]))
-                    n += 1
+                    n = 0
+                    while err == 0 and not snap[1] and n < 50:
+                        err = mm.resume()
+                        snap = mm.snapshot()
+                        got.append((err, snap[2:]))
+                        n += 1
+                    return got, err, snap
+
+                if r2.hazards:
+                    # e.g. call at the recursion limit: the C++ writes out of bounds; never in this process
+                    def child():
+                        mm = forth.ForthMachine(case.source, bits, cfg[0], cfg[1], cfg[2], cfg[3])
+                        mm.set_inputs(case.inputs)
+                        out = cpp_call(mm)
+                        mm.close()
+                        return out
+                    kind, payload = isolated(child)
+                    st.transitions += 1
+                    if kind != "ok":
+                        self.flag("crash", "call(%r) %s died with %s %s; the reference expects %s" % (
+                            w, "after begin" if point < 0 else "after run+%d resume(s)" % point, kind, payload,
+                            (ERRORS[wfin[0]], wfin[1])), case, bits, cfg, schedule="call", at=r2.hazard_at,
+                            hazard=",".join(sorted(r2.hazards)))
+                        return
+                    got, err, snap = payload
+                else:
+                    got, err, snap = cpp_call(m)
                 st.transitions += len(got) + max(point, 0) + 1
                 gfin = (err, snap[:2])
                 if dedupe([b for _, b in got]) != dedupe([b for _, b in want]) or gfin != wfin:
@@ -1026,7 +1064,8 @@ class Explorer(object):
                         w, "after begin" if point < 0 else "after run+%d resume(s)" % point,
                         [(ERRORS[e], R.describe_body(b)["stack"]) for e, b in want[:4]] + [wfin],
                         [(ERRORS[e] if 0 <= e < len(ERRORS) else e, R.describe_body(b)["stack"]) for e, b in got[:4]] + [gfin]),
-                        case, bits, cfg, schedule="call", at="call")
+                        case, bits, cfg, schedule="call", at="call", hazard=",".join(sorted(r2.hazards)),
+                        marks=",".join(sorted(r2.marks)))
                     return
 
     def decompiled(self, case, bits, cfg, m, cseq):
